@@ -35,6 +35,7 @@ func checkC09(c *vkit.Ctx) {
 		return
 	}
 	lab := NewLab(p, "")
+	lab.withTrim(c)
 	n := c.N(2000, 100000)
 	for i := 0; i < n; i++ {
 		if !c.Mine(i) {
@@ -51,14 +52,18 @@ func runC09(c *vkit.Ctx, lab *Lab, r *rand.Rand, i int) {
 	lc := lab.Gen(r, LabOpts{Skips: true, Counts: true, Parallel: true, Hostile: true, Fuzz: true})
 	lc.Run = ""
 	lc.CI = r.IntN(4) == 0
-	rec, ok := lab.record(c, lc)
+	prog, trimmed := lab.prog(i)
+	if trimmed {
+		lc.Classes["trimpath-build"] = true
+	}
+	rec, ok := lab.recordWith(c, lc, prog)
 	if !ok {
 		c.Count("premise_record_failed", 1)
 		return
 	}
 	own := BuildOwned(rec)
 	sd := lab.Seed(r, own, LabOpts{Stale: true, Shuffle: true, Hostile: true})
-	res := lab.P.RunChild(RunOpt{PkgDir: lab.PkgDir, Scenario: lc.withSkips(), Count: lc.Count, Update: lc.Update, CI: lc.CI})
+	res := prog.RunChild(RunOpt{PkgDir: lab.PkgDir, Scenario: lc.withSkips(), Count: lc.Count, Update: lc.Update, CI: lc.CI})
 	in := labSample(lc)
 	in["ci"] = lc.CI
 	if !res.Complete {
